@@ -444,9 +444,6 @@ Definition dir_eqb (a b : direction) : bool :=
 Definition table (all : list schema) (f : family) (d : direction) : list schema :=
   filter (fun s => andb (family_eqb f (sfamily s)) (dir_eqb d (sdir s))) all.
 
-Definition fam_width (f : family) : nat :=
-  match f with FServer | FPeer => 4%nat | FPeerInit | FDistributed => 1%nat end.
-
 (* ------------------------------------------------------------------------------------ *)
 (* schema well-formedness and the in-domain predicate                                    *)
 
